@@ -56,6 +56,13 @@ theorem c13_generated_code_schedule (c : Cfg) (hstep : c.step ≤ DMAX) (hatt : 
   rw [this, List.map_map]
   rfl
 
+/-- The translated iterator hands out exactly `max_attempts` items, whatever the strategy, step, factor and maximum
+    (also where the delay saturates): the retry budget of C12 is the whole schedule. -/
+theorem c13_generated_code_length (c : Cfg) (hatt : c.maxAttempts ≤ U32MAX) :
+    (genTake c (c.maxAttempts + 1) 1).length = c.maxAttempts := by
+  rw [c13_generated_code_is_the_model c hatt _ 1 (Nat.le_refl 1), List.length_map]
+  exact c13_length c
+
 /-- The translated iterator is finite and stays exhausted: past `max_attempts` it yields nothing and leaves its
     counter alone. -/
 theorem c13_generated_code_exhausted (c : Cfg) (cur : Nat) (h : c.maxAttempts < cur) :
@@ -78,5 +85,6 @@ end Selium.Backoff
 
 #print axioms Selium.Backoff.c13_generated_code_is_the_model
 #print axioms Selium.Backoff.c13_generated_code_schedule
+#print axioms Selium.Backoff.c13_generated_code_length
 #print axioms Selium.Backoff.c13_generated_code_exhausted
 #print axioms Selium.Backoff.c13_generated_saturating_mul
